@@ -492,8 +492,9 @@ func (e *Engine) modifiesHeaps(callee *ssa.Function, spec *FuncSpec, loc string,
 	}
 	name = strings.TrimPrefix(name, "*")
 	name = strings.TrimPrefix(name, "deref(")
-	isElems := strings.HasPrefix(name, "elems(")
+	isElems := strings.HasPrefix(name, "elems(") || strings.HasPrefix(name, "backing(")
 	name = strings.TrimPrefix(name, "elems(")
+	name = strings.TrimPrefix(name, "backing(")
 	name = strings.TrimSuffix(name, ")")
 	field := ""
 	if i := strings.Index(name, "."); i >= 0 {
@@ -803,10 +804,6 @@ func (e *Engine) verifyFunction(key string, extra *FuncSpec) (res *FuncResult) {
 	// parameters are non-nil
 	for i, p := range fn.Params {
 		sh := shapeOf(p.Type())
-		if i == 0 && fn.Signature.Recv() != nil && sh.kind == KPtr && !comparesWithNil(fn, p) {
-			fx.assumes = append(fx.assumes, not(eq(args[i].ts[0], "0")))
-			fx.noteAssumption("methods are called on non-nil pointer receivers (unless the method itself handles a nil receiver)")
-		}
 		if sh.kind == KFunc || (sh.kind == KFunc && i == 0) {
 			fx.assumes = append(fx.assumes, not(eq(args[i].ts[0], "0")))
 			fx.noteAssumption("function-typed parameters are non-nil")
@@ -834,7 +831,8 @@ func (e *Engine) verifyFunction(key string, extra *FuncSpec) (res *FuncResult) {
 			lets[l.Name] = fr0.evalExprIn(le, pre, pre, lets)
 		}
 		for _, r := range spec.Requires {
-			t := fr0.evalExprIn(r.E, pre, pre, lets).asBool()
+			r := r
+			t := fx.hyp(func() T { return fr0.evalExprIn(r.E, pre, pre, lets).asBool() })
 			fx.assumes = append(fx.assumes, t)
 		}
 		for _, ap := range spec.Applies {
@@ -863,35 +861,55 @@ func (e *Engine) verifyFunction(key string, extra *FuncSpec) (res *FuncResult) {
 	fx.cover = append(fx.cover, &Obligation{Name: path + "/vacuity/return_reachable", Kind: "cover", Guard: "true", Cond: not(out.guard), NAssume: len(fx.assumes), Func: key})
 
 	if spec != nil {
-		post := map[string]CV{}
-		for k, v := range lets {
-			post[k] = v
+		// postconditions are checked at every return point separately (no
+		// merged state, so each query only carries one path's memory)
+		rets := fx.rootRets
+		if len(rets) == 0 {
+			rets = []retPoint{{st: out, vals: vals}}
 		}
-		results := fn.Signature.Results()
-		for i := 0; i < results.Len(); i++ {
-			n := results.At(i).Name()
-			if n == "" || n == "_" {
-				n = fmt.Sprintf("result%d", i)
+		for _, rp := range rets {
+			post := map[string]CV{}
+			for k, v := range lets {
+				post[k] = v
 			}
-			post[n] = cvOf(vals[i])
-		}
-		if len(vals) == 1 {
-			post["result"] = cvOf(vals[0])
-		}
-		frp := *fr0
-		for i, c := range spec.Ensures {
-			if !e.useClause(c) {
-				continue
-			}
-			env := frp.envFor(out, pre, post)
-			env.fr = nil
-			for n, v := range fr0.params {
-				if _, shadow := env.vars[n]; !shadow {
-					env.vars[n] = cvOf(v)
+			results := fn.Signature.Results()
+			for i := 0; i < results.Len(); i++ {
+				n := results.At(i).Name()
+				if n == "" || n == "_" {
+					n = fmt.Sprintf("result%d", i)
 				}
+				post[n] = cvOf(rp.vals[i])
 			}
-			t := env.eval(c.E).asBool()
-			fx.oblige("ensures", fmt.Sprintf("%s/ensures/%s", path, clauseName(c, i)), out, t, fn.Pos(), c.Src)
+			if len(rp.vals) == 1 {
+				post["result"] = cvOf(rp.vals[0])
+			}
+			mkEnv := func(withLocals bool) *Env {
+				env := fr0.envFor(rp.st, pre, post)
+				env.fr = nil
+				if withLocals {
+					env.fr = fx.rootFrame
+				}
+				for n, v := range fr0.params {
+					if _, shadow := env.vars[n]; !shadow {
+						env.vars[n] = cvOf(v)
+					}
+				}
+				env.oldV = map[string]CV{}
+				for n, v := range fr0.params {
+					env.oldV[n] = cvOf(v)
+				}
+				return env
+			}
+			for _, ap := range spec.ExitApplies {
+				e.applyLemma(fx, ap, mkEnv(true), rp.st, path+"/exit")
+			}
+			for i, c := range spec.Ensures {
+				if !e.useClause(c) {
+					continue
+				}
+				t := mkEnv(false).eval(c.E).asBool()
+				fx.oblige("ensures", fmt.Sprintf("%s/ensures/%s", path, clauseName(c, i)), rp.st, t, fn.Pos(), c.Src)
+			}
 		}
 	}
 	if spec != nil && len(spec.Modifies) > 0 {
@@ -949,6 +967,15 @@ func (fr *Frame) checkFrame(spec *FuncSpec, pre, out *State, lets map[string]CV,
 			if x.Fn == "deref" {
 				cv := env.eval(x.Args[0])
 				addObj(cv.v.sh.elem, cv.v.ts[0], 0, cv.v.sh.elem.ncomp())
+				continue
+			}
+			if x.Fn == "backing" {
+				cv := env.eval(x.Args[0])
+				if cv.k != cvVal || cv.v.sh.kind != KSlice {
+					unsupp("modifies %s: not a slice", m)
+				}
+				ash := &Shape{kind: KArr, elem: cv.v.sh.elem, n: -1}
+				addObj(ash, cv.v.slRef(), 0, ash.ncomp())
 				continue
 			}
 		case *EField:
@@ -1164,7 +1191,8 @@ func (e *Engine) verifyLemma(name string) (res *FuncResult) {
 		}
 	}
 	for _, r := range lem.Requires {
-		fx.assumes = append(fx.assumes, env.eval(r.E).asBool())
+		r := r
+		fx.assumes = append(fx.assumes, fx.hyp(func() T { return env.eval(r.E).asBool() }))
 	}
 	for _, ap := range lem.Applies {
 		call := ap.E.(*ECall)
@@ -1288,7 +1316,51 @@ func (e *Engine) lemmaInstance(fx *FnCtx, name string, args []Expr, env *Env) T 
 		pre = append(pre, inst.eval(r.E).asBool())
 	}
 	for _, c := range lem.Ensures {
-		posts = append(posts, inst.eval(c.E).asBool())
+		c := c
+		posts = append(posts, fx.hyp(func() T { return inst.eval(c.E).asBool() }))
 	}
 	return imp(and(pre...), and(posts...))
+}
+
+// applyLemma is a lemma call in the Dafny sense: its preconditions become
+// obligations at this point, its conclusions are assumed afterwards.  The
+// clause may carry a "when" condition (ECond with nil else-branch).
+func (e *Engine) applyLemma(fx *FnCtx, cl Clause, env *Env, st *State, where string) {
+	ex := cl.E
+	guard := st.guard
+	if c, ok := ex.(*ECond); ok && c.B == nil {
+		guard = and(guard, env.eval(c.C).asBool())
+		ex = c.A
+	}
+	call := ex.(*ECall)
+	if _, isSpec := e.contracts.SpecFns[call.Fn]; isSpec {
+		env.eval(call)
+		return
+	}
+	lem := e.contracts.Lemmas[call.Fn]
+	if lem == nil {
+		unsupp("unknown lemma %s", call.Fn)
+	}
+	if len(call.Args) != len(lem.Params) {
+		unsupp("lemma %s expects %d arguments", call.Fn, len(lem.Params))
+	}
+	fx.usedLemmas = append(fx.usedLemmas, call.Fn)
+	inst := &Env{fx: fx, vars: map[string]CV{}, st: env.st, old: env.old, pkg: e.pkgOf(lem.Pkg), bound: map[string]bool{}}
+	for i, p := range lem.Params {
+		inst.vars[p.Name] = env.eval(call.Args[i])
+	}
+	gst := st.clone()
+	gst.guard = guard
+	for _, p := range lem.Params {
+		if p.Type == "nat" {
+			fx.oblige("requires", fmt.Sprintf("%s/lemma/%s/requires/nat_%s#", where, call.Fn, p.Name), gst, le("0", inst.vars[p.Name].asInt()), token.NoPos, "nat parameter")
+		}
+	}
+	for i, r := range lem.Requires {
+		fx.oblige("requires", fmt.Sprintf("%s/lemma/%s/requires/%s#", where, call.Fn, clauseName(r, i)), gst, inst.eval(r.E).asBool(), token.NoPos, r.Src)
+	}
+	for _, c := range lem.Ensures {
+		c := c
+		fx.assume(guard, fx.hyp(func() T { return inst.eval(c.E).asBool() }))
+	}
 }
